@@ -732,11 +732,11 @@ def run_catalogue(ctx, worker, tier=None, models=None):
     return agg
 
 def seeded_order(seed):
-    import random
+    """SX keeps the canonical operation order whatever VERIF_SEED is: which history represents a
+    deduplicated state (and therefore the shrunk counterexample that names a finding) must not depend
+    on the seed. The explored set is the same for every order; there is no random choice to seed."""
     def order(ops):
-        ops = list(ops)
-        if seed: random.Random(seed).shuffle(ops)
-        return ops
+        return list(ops)
     return order
 
 def shrink(hist, fails):
@@ -809,7 +809,10 @@ def _op_r_identity(self, label):
     bad = []
     for r, got in sorted(routes.items()):
         gl = got if isinstance(got, list) else [got]
-        if len(gl) != 1 or gl[0] is not obj: bad.append(r)
+        if r.startswith('nav:'):
+            # whether the other end points back at all is C12's question; here: if it does, it is the same object
+            if any(o is not obj for o in gl): bad.append(r)
+        elif len(gl) != 1 or gl[0] is not obj: bad.append(r)
     return bad
 Exec.op_r_identity = _op_r_identity
 
